@@ -5,6 +5,8 @@ package tcc
 
 import (
 	"encoding/json"
+	"reflect"
+	"strconv"
 
 	"seata.apache.org/seata-go/pkg/zzverif/vrt"
 )
@@ -160,4 +162,23 @@ func VerifSTFloatConv() {
 	vrt.Observe("u", u)
 	vrt.Assert(u == uint32(d/1000000000)*1000, "st/float-seconds-truncation")
 	vrt.Reach("st/float-done")
+}
+
+// VerifSTFloat32Text: single precision through its shortest decimal text (what
+// database/sql does when a float32 driver value is assigned to a *float64).
+func VerifSTFloat32Text() {
+	src := float32(1.1)
+	if vrt.Bool("half") {
+		src = 0.5
+	}
+	rv := reflect.ValueOf(src)
+	txt := strconv.FormatFloat(rv.Float(), 'g', -1, 32)
+	vrt.Observe("txt", txt)
+	f, err := strconv.ParseFloat(txt, 64)
+	vrt.Observe("f", f)
+	vrt.Observe("wide", float64(src))
+	vrt.Assert(err == nil && (txt == "1.1" || txt == "0.5"), "st/float32-shortest-text")
+	vrt.Assert(f == 1.1 || f == 0.5, "st/float32-text-parses-to-nearest-double")
+	vrt.Assert(src == 0.5 || float64(src) != 1.1, "st/float32-widening-is-not-the-double")
+	vrt.Reach("st/float32-done")
 }
